@@ -495,12 +495,15 @@ static long weird_long(rng_t *r){
   }
 }
 static int ret_ok15(int r){ return r==0||r==OV_EINVAL||r==OV_EIMPL||r==OV_EFAULT; }
+static int c15_focus=0;   /* rate-management stratum: requests drawn from the six rate-management codes only, arguments = what GET reports (or a sane draw) with 0-2 fields moved to a boundary value */
 static void c15_ctl_script(vorbis_info *vi,rng_t *r,int n,const char *when,char *log,size_t logn){
   size_t k=strlen(log);
   for(int i=0;i<n;i++){
     static const int reqs[]={OV_ECTL_RATEMANAGE_GET,OV_ECTL_RATEMANAGE_SET,OV_ECTL_RATEMANAGE_AVG,OV_ECTL_RATEMANAGE_HARD,OV_ECTL_RATEMANAGE2_GET,
       OV_ECTL_RATEMANAGE2_SET,OV_ECTL_LOWPASS_GET,OV_ECTL_LOWPASS_SET,OV_ECTL_IBLOCK_GET,OV_ECTL_IBLOCK_SET,OV_ECTL_COUPLING_GET,OV_ECTL_COUPLING_SET,0x99,0,-1};
-    int req=reqs[rng_below(r,15)]; int ret; int wild=rng_chance(r,0.6);
+    static const int freqs[]={OV_ECTL_RATEMANAGE_SET,OV_ECTL_RATEMANAGE_AVG,OV_ECTL_RATEMANAGE_HARD,OV_ECTL_RATEMANAGE2_SET,OV_ECTL_RATEMANAGE2_SET,OV_ECTL_RATEMANAGE_AVG,OV_ECTL_RATEMANAGE2_GET,OV_ECTL_RATEMANAGE_GET};
+    int req= c15_focus? freqs[rng_below(r,8)] : reqs[rng_below(r,15)]; int ret; int wild=rng_chance(r,0.6); int semi= c15_focus || rng_chance(r,0.3); if(semi) wild=0;
+    int basis_get= rng_chance(r,0.5); int npert= semi?(int)rng_below(r,3):0;
     struct ovectl_ratemanage_arg a1; struct ovectl_ratemanage2_arg a2; double d; int iv;
     memset(&a1,0,sizeof a1); memset(&a2,0,sizeof a2);
     switch(req){
@@ -510,8 +513,10 @@ static void c15_ctl_script(vorbis_info *vi,rng_t *r,int n,const char *when,char 
       vorbis_encode_ctl(vi,OV_ECTL_RATEMANAGE_GET,&a1);
       if(wild){ a1.management_active=(int)rng_range(r,-1,2); a1.bitrate_hard_min=weird_long(r); a1.bitrate_hard_max=weird_long(r); a1.bitrate_hard_window=weird_double(r);
         a1.bitrate_av_lo=weird_long(r); a1.bitrate_av_hi=weird_long(r); a1.bitrate_av_window=weird_double(r); a1.bitrate_av_window_center=weird_double(r); }
-      else { a1.management_active=1; a1.bitrate_hard_min=(long)rng_range(r,0,64000); a1.bitrate_hard_max=(long)rng_range(r,64000,400000); a1.bitrate_hard_window=rng_unit(r)*4;
+      else if(!(semi && basis_get)){ a1.management_active=1; a1.bitrate_hard_min=(long)rng_range(r,0,64000); a1.bitrate_hard_max=(long)rng_range(r,64000,400000); a1.bitrate_hard_window=rng_unit(r)*4;
         a1.bitrate_av_lo=a1.bitrate_av_hi=(long)rng_range(r,32000,300000); a1.bitrate_av_window=rng_unit(r)*4; a1.bitrate_av_window_center=rng_unit(r); }
+      for(int p=0;p<npert;p++) switch(rng_below(r,8)){ case 0: a1.management_active=(int)rng_range(r,-1,2); break; case 1: a1.bitrate_hard_min=weird_long(r); break; case 2: a1.bitrate_hard_max=weird_long(r); break; case 3: a1.bitrate_hard_window=weird_double(r); break;
+        case 4: a1.bitrate_av_lo=weird_long(r); break; case 5: a1.bitrate_av_hi=weird_long(r); break; case 6: a1.bitrate_av_window=weird_double(r); break; default: a1.bitrate_av_window_center=weird_double(r); break; }
       ret=vorbis_encode_ctl(vi,req,&a1); break;
     case OV_ECTL_RATEMANAGE2_GET: ret=vorbis_encode_ctl(vi,req,&a2); break;
     case OV_ECTL_RATEMANAGE2_SET:
@@ -519,8 +524,11 @@ static void c15_ctl_script(vorbis_info *vi,rng_t *r,int n,const char *when,char 
       vorbis_encode_ctl(vi,OV_ECTL_RATEMANAGE2_GET,&a2);
       if(wild){ a2.management_active=(int)rng_range(r,-1,2); a2.bitrate_limit_min_kbps=weird_long(r); a2.bitrate_limit_max_kbps=weird_long(r); a2.bitrate_limit_reservoir_bits=weird_long(r);
         a2.bitrate_limit_reservoir_bias=weird_double(r); a2.bitrate_average_kbps=weird_long(r); a2.bitrate_average_damping=weird_double(r); }
-      else { a2.management_active=1; a2.bitrate_limit_min_kbps=(long)rng_range(r,0,64); a2.bitrate_limit_max_kbps=(long)rng_range(r,64,400); a2.bitrate_limit_reservoir_bits=(long)rng_range(r,0,1000000);
-        a2.bitrate_limit_reservoir_bias=rng_unit(r); a2.bitrate_average_kbps=(long)rng_range(r,64,300); a2.bitrate_average_damping=0.1+rng_unit(r)*3; }
+      else if(!(semi && basis_get)){ a2.management_active=1; a2.bitrate_limit_min_kbps=(long)rng_range(r,0,64); a2.bitrate_limit_max_kbps=(long)rng_range(r,64,400); a2.bitrate_limit_reservoir_bits=(long)rng_range(r,0,1000000);
+        a2.bitrate_limit_reservoir_bias=rng_unit(r); a2.bitrate_average_kbps= (semi&&rng_chance(r,0.3))?0:(long)rng_range(r,64,300); a2.bitrate_average_damping=0.1+rng_unit(r)*3; }
+      else if(rng_chance(r,0.5)) a2.management_active=1;
+      for(int p=0;p<npert;p++) switch(rng_below(r,7)){ case 0: a2.management_active=(int)rng_range(r,-1,2); break; case 1: a2.bitrate_limit_min_kbps=weird_long(r); break; case 2: a2.bitrate_limit_max_kbps=weird_long(r); break; case 3: a2.bitrate_limit_reservoir_bits=weird_long(r); break;
+        case 4: a2.bitrate_limit_reservoir_bias=weird_double(r); break; case 5: a2.bitrate_average_kbps=weird_long(r); break; default: a2.bitrate_average_damping=weird_double(r); break; }
       ret=vorbis_encode_ctl(vi,req,&a2); break;
     case OV_ECTL_LOWPASS_GET: case OV_ECTL_IBLOCK_GET: ret=vorbis_encode_ctl(vi,req,&d); break;
     case OV_ECTL_LOWPASS_SET: d= wild?weird_double(r):2+rng_unit(r)*97; ret=vorbis_encode_ctl(vi,req,&d); break;
@@ -561,8 +569,9 @@ static int c15_vbr_edges(int ch,long rate,float *lo,float *hi){
     *lo=good; have|=1; }
   return have;
 }
+static int c15_long_encode=0;
 static void case_c15(const drvargs_t *a,long id){
-  rng_t r; rng_seed(&r,a->seed,15,(uint64_t)id);
+  rng_t r; rng_seed(&r,a->seed,15,(uint64_t)id); c15_long_encode=0;
   res_begin(id);
   static const long edges[]={8000,9000,15000,19000,26000,40000,50000,200000};
   static const long common[]={8000,11025,12000,16000,22050,24000,32000,44100,48000,64000,88200,96000,192000};
@@ -615,7 +624,10 @@ static void case_c15(const drvargs_t *a,long id){
   int carry= !ok && entry<2 && rng_chance(&r,0.5);   /* the application ignores the refusal and carries on */
   if(carry) res_count("carried_on_after_a_refused_setup_call",1);
   if((ok && (entry<2||entry==4)) || carry){
-    c15_ctl_script(&vi,&r,(int)rng_below(&r,7)+(carry||entry==4),"before setup_init",desc,sizeof desc);
+    int focus= !carry && entry<2 && (id%9==1||id%9==4||id%9==7);   /* rate-management stratum: 6-16 such requests, then (below) about a second of audio so that the manager's state really evolves */
+    if(focus){ c15_focus=1; res_count("rate_management_request_scripts",1); }
+    c15_ctl_script(&vi,&r,focus?6+(int)rng_below(&r,11):(int)rng_below(&r,7)+(carry||entry==4),"before setup_init",desc,sizeof desc);
+    c15_focus=0; if(focus){ struct ovectl_ratemanage2_arg g; memset(&g,0,sizeof g); if(vorbis_encode_ctl(&vi,OV_ECTL_RATEMANAGE2_GET,&g)==0 && g.management_active) c15_long_encode=1; }   /* long encode only when the manager will really run */
     ret=vorbis_encode_setup_init(&vi); res_eval(1);
     if(!ret_ok15(ret)) res_viol("C15","setup-init-return-domain","%d: %s",ret,desc);
     if(ret) ok=0;
@@ -646,7 +658,7 @@ static void case_c15(const drvargs_t *a,long id){
           vorbis_comment_clear(&dc); vorbis_info_clear(&di);
         }
         static const long Ms[]={0,1,5000,700,9,13,16,33};   /* incl. totals shorter than the encoder's extrapolation order */
-        long M=Ms[rng_below(&r,8)]; if(ch>32 && M>700) M=700; long done=0, pk=0;
+        long M=Ms[rng_below(&r,8)]; if(c15_long_encode && rate>0){ M=(long)((rate>60000?60000:rate)*(0.8+0.6*rng_unit(&r))); if(ch>8) M/=4; res_count("long_encodes_after_rate_management_requests",1); } if(ch>32 && M>700) M=700; long done=0, pk=0;
         int sig= rng_chance(&r,0.4)?SIG_NOISE:(rng_chance(&r,0.5)?SIG_BURSTS:(rng_chance(&r,0.5)?SIG_OVER:SIG_ALT)); uint64_t ss=rng_next(&r);   /* incl. input hotter than full scale */
         ogg_int64_t lastg=-1; int overlong=0; int mistake= rng_chance(&r,0.25);   /* an application error in mid-stream: more samples reported than were requested */
         while(done<M){ long n=(long)rng_range(&r,1,2048); if(n>M-done) n=M-done; float **b=vorbis_analysis_buffer(&vd,(int)n);
